@@ -26,6 +26,7 @@ import (
 	"os"
 	"os/exec"
 	"path/filepath"
+	"regexp"
 	"sort"
 	"strings"
 	"sync"
@@ -120,6 +121,12 @@ func validators(run *vk.Run, n int) {
 	total := valStats{}
 	all := map[string]struct{}{}
 	per := (n + workers - 1) / workers
+	// the curated strings first, in order: the first witness of a key is then the simplest
+	for _, l := range [][]string{{"a\\b"}, curatedNames, curatedStatic, curatedRecordings, curatedFilenames, curatedUsernames, curatedTokens, symlinkNames} {
+		for _, s := range l {
+			checkValidators(run, s, &total, all)
+		}
+	}
 	for w := 0; w < workers; w++ {
 		wg.Add(1)
 		go func(w int) {
@@ -127,14 +134,6 @@ func validators(run *vk.Run, n int) {
 			r := run.Rand(1, uint64(w))
 			st := valStats{}
 			dist := map[string]struct{}{}
-			lists := [][]string{curatedNames, curatedStatic, curatedRecordings, curatedFilenames, curatedUsernames, curatedTokens, symlinkNames}
-			if w == 0 {
-				for _, l := range lists {
-					for _, s := range l {
-						checkValidators(run, s, &st, dist)
-					}
-				}
-			}
 			for i := 0; i < per; i++ {
 				s := genString(r)
 				if w == 0 && i < 3 {
@@ -243,10 +242,23 @@ func (j *judge) event(ev *event) {
 	writeClass := ev.Class != clRead && ev.Class != clStat
 	for _, l := range locs {
 		if j.lay.isSentinel(l.p) {
+			// route: a lexical escape keeps the plain key; an escape that only exists
+			// because a symlink inside a root was followed is keyed as such
 			key := fmt.Sprintf("sentinel-touched:%s:%s", ev.Name, kind)
-			if j.args.GroupSymlinks && l.viaSym && lexInside(ev, j.lay.Groups) {
+			switch sym := l.viaSym && lexInside(ev, j.lay.readRoots()); {
+			case sym && j.args.GroupSymlinks && lexInside(ev, []string{j.lay.Groups}):
 				// dedicated batch: the groups directory itself contains symlinks pointing out
-				key = "groups-dir-symlink-followed:" + ev.Class
+				key = "groups-dir-symlink-followed:write"
+				if ev.Class == clRead || ev.Class == clStat {
+					key = "groups-dir-symlink-followed:read"
+				}
+			case sym && rawTrailingSlash(ev):
+				key += ":via-symlink-trailing-slash"
+			case sym:
+				key += ":via-symlink"
+			case rawTrailingSlash(ev):
+				// only a directory can be reached this way ("../", "x/../../")
+				key += ":trailing-slash"
 			}
 			j.violation(key, fmt.Sprintf("%s (%s, %s) reached %s, which is outside the groups, recordings, static and data directories",
 				ev.Name, ev.Class, outcome, j.lay.rel(l.p)), in, ev)
@@ -266,10 +278,13 @@ func (j *judge) event(ev *event) {
 			if underAny(l.p, j.lay.readRoots()) {
 				continue
 			}
-			k := l.p
+			k := normSys(l.p)
 			if !hostile {
 				j.learnt[k] = true
 				continue
+			}
+			if runtimeReads[k] && rawIsLiteral(ev, l.p) {
+				continue // the C library / Go runtime asking for a fixed absolute path
 			}
 			if !j.allow[k] && !j.learnt[k] {
 				j.violation("read-outside-roots:"+kind,
@@ -292,9 +307,52 @@ func (j *judge) event(ev *event) {
 	}
 }
 
-func lexInside(ev *event, dir string) bool {
+// Reads the C library and the Go runtime perform lazily (thread creation, first use of
+// the resolver or of the time zone), whatever the request.  Only honoured when the
+// process passed exactly this absolute path to the system call.
+var runtimeReads = map[string]bool{
+	"/sys/devices/system/cpu/online": true, "/sys/devices/system/cpu/possible": true, "/sys/devices/system/cpu": true,
+	"/sys/kernel/mm/transparent_hugepage/hpage_pmd_size": true, "/proc/sys/net/core/somaxconn": true,
+	"/proc/self/maps": true, "/proc/stat": true, "/proc/meminfo": true, "/proc/cpuinfo": true, "/proc/sys/vm/overcommit_memory": true,
+	"/etc/localtime": true, "/etc/nsswitch.conf": true, "/etc/hosts": true, "/etc/resolv.conf": true, "/etc/host.conf": true, "/etc/gai.conf": true,
+	"/etc/mime.types": true, "/etc/apache2/mime.types": true, "/etc/apache/mime.types": true, "/etc/httpd/conf/mime.types": true,
+	"/usr/share/mime/globs2": true, "/usr/local/share/mime/globs2": true, "/dev/urandom": true, "/dev/null": true,
+}
+
+func rawIsLiteral(ev *event, p string) bool {
 	for _, t := range ev.Targets {
-		if under(t.Lex, dir) {
+		if t.Raw == p {
+			return true
+		}
+	}
+	return false
+}
+
+var procPid = regexp.MustCompile(`^/proc/\d+(/task/\d+)?`)
+
+// normSys makes process-specific system paths comparable between runs.
+func normSys(p string) string {
+	if strings.HasPrefix(p, "/proc/") {
+		p = procPid.ReplaceAllString(p, "/proc/self")
+		p = strings.Replace(p, "/proc/self/task/self", "/proc/self", 1)
+	}
+	return p
+}
+
+func lexInside(ev *event, dirs []string) bool {
+	for _, t := range ev.Targets {
+		if underAny(t.Lex, dirs) {
+			return true
+		}
+	}
+	return false
+}
+
+// rawTrailingSlash: the path argument ends in '/' (the kernel then follows a final
+// symlink even under O_NOFOLLOW).
+func rawTrailingSlash(ev *event) bool {
+	for _, t := range ev.Targets {
+		if strings.HasSuffix(t.Raw, "/") {
 			return true
 		}
 	}
@@ -414,12 +472,12 @@ func batchChild() {
 				for _, t := range ev.Targets {
 					for _, p := range []string{t.Lex, t.Real} {
 						if !under(p, lay.D) {
-							j.learnt[p] = true
+							j.learnt[normSys(p)] = true
 						}
 					}
 				}
 				if strings.HasPrefix(ev.RetFd, "/") && !under(ev.RetFd, lay.D) {
-					j.learnt[ev.RetFd] = true
+					j.learnt[normSys(ev.RetFd)] = true
 				}
 			}
 		}
@@ -461,14 +519,14 @@ func batchChild() {
 	for _, m := range diff.Modified {
 		key := "sentinel-modified"
 		if a.GroupSymlinks {
-			key = "groups-dir-symlink-followed:sentinel-modified"
+			key = "groups-dir-symlink-followed:write"
 		}
 		run.Violation(key, "after the batch a file outside the roots differs from its state before: "+lay.rel(m), rep)
 	}
 	for _, c := range diff.Created {
 		key := "file-created-outside-roots"
 		if a.GroupSymlinks {
-			key = "groups-dir-symlink-followed:file-created"
+			key = "groups-dir-symlink-followed:write"
 		}
 		run.Violation(key, "after the batch a new file exists outside the roots: "+lay.rel(c), rep)
 	}
